@@ -61,6 +61,7 @@ func (o *optimizer) optimizeImports(f *loader.File) {
 		}
 	}
 	imports.Clean(o.m.Loader, f)
+	o.removeUnusedNamesOfDuplicatedImports(f)
 
 	// only the import of co becomes unused by rewriting,
 	// any other import that is unused now was used by dead code dropped by rewriter
@@ -88,6 +89,90 @@ func (o *optimizer) optimizeImports(f *loader.File) {
 			astutil.AddNamedImport(f.Pkg.Fset, f.File, name, path)
 		}
 	}
+}
+
+// imports.Clean decides per path: when one path is imported under two names
+// (the rewriter itself imports seq as ʂɘʠ, the user may import it too, or "strings" and str "strings")
+// and one of the names lost its uses to dropped dead code, that spec is kept and breaks the build,
+// the path stays imported under the other name, so no side effect of init is lost by removing the spec
+func (o *optimizer) removeUnusedNamesOfDuplicatedImports(f *loader.File) {
+	type spec struct {
+		node       *ast.ImportSpec
+		name, path string
+	}
+	var specs []spec
+	count := map[string]int{}
+	for _, decl := range f.File.Decls {
+		gen, ok := decl.(*ast.GenDecl)
+		if !ok || gen.Tok != token.IMPORT {
+			continue
+		}
+		for _, s := range gen.Specs {
+			s := s.(*ast.ImportSpec)
+			// imports.Clean rebuilds the spec with the name inside the path literal, e.g. `seq "path"`
+			lit := strings.TrimSpace(s.Path.Value)
+			name := ""
+			if s.Name != nil {
+				name = s.Name.Name
+			}
+			if i := strings.Index(lit, "\""); i > 0 {
+				name, lit = strings.TrimSpace(lit[:i]), lit[i:]
+			}
+			path, err := strconv.Unquote(lit)
+			if err != nil {
+				return
+			}
+			specs = append(specs, spec{s, name, path})
+			count[path]++
+		}
+	}
+	used := map[string]bool{}
+	ast.Inspect(f.File, func(n ast.Node) bool {
+		if sel, ok := n.(*ast.SelectorExpr); ok {
+			if id, ok := sel.X.(*ast.Ident); ok {
+				// (a local variable of that name counts too: keeping the spec is the safe side)
+				used[id.Name] = true
+			}
+		}
+		return true
+	})
+	unused := map[*ast.ImportSpec]bool{}
+	for _, s := range specs {
+		if count[s.path] < 2 || s.name == "_" || s.name == "." {
+			continue
+		}
+		name := s.name
+		if name == "" {
+			if p := f.Pkg.Imports[s.path]; p != nil {
+				name = p.Name
+			}
+		}
+		if name != "" && !used[name] {
+			unused[s.node] = true
+			count[s.path]--
+		}
+	}
+	if len(unused) == 0 {
+		return
+	}
+	for _, decl := range f.File.Decls {
+		if gen, ok := decl.(*ast.GenDecl); ok && gen.Tok == token.IMPORT {
+			kept := gen.Specs[:0]
+			for _, s := range gen.Specs {
+				if !unused[s.(*ast.ImportSpec)] {
+					kept = append(kept, s)
+				}
+			}
+			gen.Specs = kept
+		}
+	}
+	keptImports := f.File.Imports[:0]
+	for _, s := range f.File.Imports {
+		if !unused[s] {
+			keptImports = append(keptImports, s)
+		}
+	}
+	f.File.Imports = keptImports
 }
 
 func hasUnresolvedNames(pkg *loader.Package) bool {
